@@ -168,8 +168,75 @@ class Gen:
             vars_.append(x)
         return stmts, vars_
 
+    # ---- hand-written shapes that random generation reaches too rarely
+    def template_case(self):
+        """a successful output nested inside a failed one, inside a cacheable parent; built, reused,
+        inspected, cleaned"""
+        self.nvar = 0
+        r = self.r
+        if r.random() < 0.35:
+            return self.template_nested_failures()
+        d1, d2 = r.sample(NAMES[:4], 2)
+        deep = [d1, d2, "in"] if r.random() < 0.6 else [d1, "in"]
+        outer = [d1, "out"] if r.random() < 0.7 else [d2 + "x", "out"]
+        cmp_ = "HASH" if self.flip("hash") else "METADATA"
+        failmode = r.choice([[["write", ["lit", "x"]], ["raise", 2]], [["raise", 1]], [["ret", ["lit", 0]]], [["write", ["lit", "x"]], ["ret", ["obj"]]]])
+        funcs = {
+            "inner": {"*": [["write", ["lit", "hello"]], ["ret", ["lit", 1]]]},
+            "outerfail": {"*": [["build_file", "i", deep, cmp_, "inner", [], {}], ["ask", "q", "is_dir", deep[:-1]]] + failmode},
+            "wrap": {"*": [["build_file", "o", outer, cmp_, "outerfail", [], {}], ["ask", "l", "exists", deep], ["ret", ["digest", ["o", "l"]]]]},
+        }
+        parent = r.choice(["subbuild", "build_file"])
+        if parent == "subbuild":
+            call = [["subbuild", "w", "wrap", [], {}]]
+        else:
+            funcs["wrapf"] = {"*": funcs["wrap"]["*"][:-1] + [["write", ["digest", ["o", "l"]]], ["ret", ["lit", 2]]]}
+            call = [["build_file", "w", [d2 + "w"], cmp_, "wrapf", [], {}]]
+        probes = [["ask", "p1", "is_dir", deep[:-1]], ["ask", "p2", "list_dir", deep[:1]], ["ask", "p3", "walk", [], True], ["ask", "p4", "is_file", deep]]
+        r.shuffle(probes)
+        root = call + [["ret", ["var", "w"]]]
+        root_probe = probes[:2] + call + probes[2:] + [["ret", ["var", "w"]]]
+        hist = [["build", {}, root], ["build", {}, root_probe]]
+        tail = r.random()
+        if tail < 0.4:
+            hist.append(["clean", None])
+        elif tail < 0.7:
+            hist.append(["build", {}, [["ask", "z", "exists", deep[:1]], ["ret", ["var", "z"]]]])     # a build that no longer makes them
+            hist.append(["clean", None])
+        else:
+            hist.append(["build", {}, root + []])
+            hist.append(["build", {}, call + [["raise", 9]]])
+        self.outputs = [deep, outer]
+        self.inputs = []
+        return {"cache": ["cache"], "name": "n", "funcs": funcs, "history": hist}
+
+    def template_nested_failures(self):
+        """a failed output whose function caught the failure of another output in a sibling directory,
+        below a common new ancestor that the caller then looks at; built, rebuilt unchanged twice"""
+        r = self.r
+        top = r.choice(NAMES[:3])
+        a, b = r.sample(["a", "b", "c", "d e"], 2)
+        f1, f2 = [top, a, "f1"], [top, b, "f2"]
+        cmp_ = "HASH" if self.flip("hash") else "METADATA"
+        funcs = {
+            "inner_file": {"*": [["raise", 1]] if r.random() < 0.6 else [["ret", ["lit", 0]]]},
+            "outer_file": {"*": [["build_file", "n", f2, cmp_, "inner_file", [], {}], ["write", ["lit", "x"]], ["raise", 2]]},
+            "probe": {"*": [["build_file", "o", f1, cmp_, "outer_file", [], {}],
+                            ["ask", "q1", r.choice(["exists", "is_dir", "list_dir"]), [top]],
+                            ["ask", "q2", "walk", [], True], ["ret", ["digest", ["o", "q1"]]]]},
+        }
+        root = [["subbuild", "s", "probe", [], {}], ["ret", ["var", "s"]]]
+        hist = [["build", {}, root], ["build", {}, root], ["build", {}, root]]
+        if r.random() < 0.5:
+            hist.append(["clean", None])
+        self.outputs = [f1, f2]
+        self.inputs = []
+        return {"cache": ["cache"], "name": "n", "funcs": funcs, "history": hist}
+
     # ---- whole case
     def case(self, nsteps=None):
+        if nsteps is None and self.r.random() < self.p.get("template", 0.12):
+            return self.template_case()
         self.nvar = 0
         self.cache = self.r.choice([["cache"], ["cache"], ["k", "cache"], ["k", "m", "cache"]])
         nin = self.r.choice([0, 1, 2])
